@@ -81,14 +81,33 @@ def run_case(ctx, nc, spec, si, dname, uname, vname, rname, cache, want, _shrink
     if vname in ("reentrant", "mutual") and len(spec["verts"]) > 12:
         vname = "accept"  # the re-entrant filter runs a nested traversal per edge: small graphs only
     g = graphs.build(spec)
+    step_limit = 20 * (len(spec["verts"]) + len(spec["edges"])) + 200
+
+    def bounded(fn, *a, **kw):
+        """Every call into a traversal runs under the logical step bound (number of vertex expansions)."""
+        nc.arm(step_limit)
+        try:
+            return oracles.outcome(fn, *a, **kw)
+        except oracles.ExpansionBound:
+            return ("exc", oracles.ExpansionBound)
+        finally:
+            nc.disarm()
+
     if then:
         # first traverse the fresh graph with all three traversals (this is what may leave a stale memo behind),
         # then edit the same objects in place; everything below judges the EDITED graph
         Vertex.NEIGHBOR_CACHING = bool(cache)
         try:
             for _n, (lf, _gf) in TRAV.items():
-                oracles.outcome(lf, g.uni, g.verts[si], direction_sensitive=DIRS[dname], unknown_handling=UNKS[uname],
-                                ff_via=zoo.NB_FILTERS[vname])
+                pre = bounded(lf, g.uni, g.verts[si], direction_sensitive=DIRS[dname], unknown_handling=UNKS[uname],
+                              ff_via=zoo.NB_FILTERS[vname])
+                if pre[0] == "exc" and pre[1] is oracles.ExpansionBound:
+                    ctx.violation(f"{_n}:nontermination", f"{_n} expanded more than {step_limit} vertices on a graph of "
+                                  f"{len(spec['verts'])} [start=v{si} dir={dname} unk={uname} via={vname} "
+                                  f"uni={spec.get('uni')} edges={spec['edges']}]",
+                                  {"spec": spec, "start": si, "dir": dname, "unk": uname, "via": vname, "res": rname,
+                                   "cache": bool(cache), "then": None})
+                    return [f"{_n}:nontermination"]
             apply_mutations(g, then)
         finally:
             Vertex.NEIGHBOR_CACHING = False
@@ -186,7 +205,7 @@ def run_case(ctx, nc, spec, si, dname, uname, vname, rname, cache, want, _shrink
             # ff_result only removes entries: the filtered listing is the unfiltered ORDER minus the rejected vertices
             # (part of C06's set claim and of C07's order claim alike)
             if res is not None:
-                rout = oracles.outcome(lf, uni, start, ff_result=res, **kw)
+                rout = bounded(lf, uni, start, ff_result=res, **kw)
                 ctx.evaluated()
                 ctx.count("ff_result_cases")
                 expect = [x for x in lst if res(x)]
@@ -203,6 +222,7 @@ def run_case(ctx, nc, spec, si, dname, uname, vname, rname, cache, want, _shrink
                     other = start
                 g1, g2 = TRAV[n1][1](uni, start, **kw), TRAV[n2][1](uni, other, **kw)
                 o1, o2 = [], []
+                nc.arm(2 * step_limit)
                 try:
                     alive = [True, True]
                     while any(alive):
@@ -218,10 +238,17 @@ def run_case(ctx, nc, spec, si, dname, uname, vname, rname, cache, want, _shrink
                                     # the companion traversal starts elsewhere and may legitimately meet an
                                     # unknown-type link under LNK_UNKNOWN_ERROR: it just ends there
                                     alive[k_] = False
+                except oracles.ExpansionBound:
+                    nc.disarm()
+                    viol(f"{n2 if alive[1] and not alive[0] else n1}:nontermination", "two generator traversals consumed "
+                         f"alternately (the second from v{g.verts.index(other)}) expanded more than {2 * step_limit} vertices")
+                    break
                 except Exception as exc:  # noqa: BLE001
+                    nc.disarm()
                     viol(f"{n1}:interleaved_generators_raised:{type(exc).__name__}", f"two generator traversals consumed "
                          f"alternately raised {type(exc).__name__}")
                     break
+                nc.disarm()
                 ctx.evaluated()
                 ctx.count("interleaved_generator_pairs")
                 if not oracles.same_identities(o1, results[n1]):
@@ -263,7 +290,7 @@ def run_case(ctx, nc, spec, si, dname, uname, vname, rname, cache, want, _shrink
             for name, (lf, _) in TRAV.items():
                 if name not in results:
                     continue
-                again = oracles.outcome(lf, uni, start, direction_sensitive=d, unknown_handling=u, ff_via=via)
+                again = bounded(lf, uni, start, direction_sensitive=d, unknown_handling=u, ff_via=via)
                 ctx.evaluated()
                 if again[0] != "ok" or not oracles.same_identities(again[1], results[name]):
                     viol(f"{name}:not_repeatable", f"second call gave {_nm(g, again)}, first {g.names(results[name])}")
@@ -274,7 +301,7 @@ def run_case(ctx, nc, spec, si, dname, uname, vname, rname, cache, want, _shrink
                 for name, (lf, _) in TRAV.items():
                     if name not in results:
                         continue
-                    r2 = oracles.outcome(lf, g2.uni, g2.verts[si], direction_sensitive=d, unknown_handling=u, ff_via=via)
+                    r2 = bounded(lf, g2.uni, g2.verts[si], direction_sensitive=d, unknown_handling=u, ff_via=via)
                     ctx.evaluated()
                     if r2[0] != "ok" or g2.names(r2[1]) != g.names(results[name]):
                         viol(f"{name}:rebuild_differs", f"same spec rebuilt gives {_nm(g2, r2)} vs {g.names(results[name])}")
